@@ -18,7 +18,8 @@ ACCESSOR_LABEL = {
     "<NaiveTime as Timelike>::hour": "hour", "<NaiveTime as Timelike>::minute": "minute",
     "<NaiveTime as Timelike>::second": "second", "<NaiveTime as Timelike>::nanosecond": "nanosecond",
     "FixedOffset::local_minus_utc": "offset_seconds_east", "Weekday::number_from_monday": "weekday_from_monday_1",
-    "Month::number_from_month": "month_1", "Tz::name": "tz_name", "Uuid::into_bytes": "uuid_bytes",
+    "Month::number_from_month": "month_1", "Tz::name": "tz_name", "Uuid::into_bytes": "uuid_bytes", "Uuid::as_bytes": "uuid_bytes",
+    "<u8 as From<bool>>::from": "bool01",
     "<T as ToString>::to_string": "decimal_text", "<BigInt as ToBytes>::to_be_bytes": "signed_be_bytes",
     "NaiveDateTime::date": "date", "NaiveDateTime::time": "time", "checked_naive_local": "local_datetime",
     "DateTime<Tz>::naive_utc": "utc_datetime", "DateTime<Tz>::offset": "offset", "char::encode_utf16": "utf16_unit",
@@ -76,15 +77,33 @@ def writer_paths(body, crate):
         if not _all_continue(p):
             continue
         ev = []
-        for c in sig_calls(p):
+        for c in p.events:
+            if c[0] == "loop":
+                ev.append(("loop", c[2]))
+                continue
+            if c[0] != "call" or c[2].endswith(("Try>::branch", "from_residual")):
+                continue
             if c[3].startswith(W_PREFIX):
                 ev.append(("w", c[3][len(W_PREFIX):], c[5][1] if len(c[5]) > 1 else None))
             elif c[3] == "BinarySerializer::serialize":
                 ev.append(("sub", _sub_type(c), c[5][0]))
             elif c[2] == "serialize_iterator":
                 ev.append(("seqw", c[5][0], c[6]))
+            elif c[3] == "Iterator::next" and p.outcome[0] == "loopback":
+                ev.append(("loop", "begin"))
+        if p.outcome[0] == "loopback":
+            ev.append(("loop", "end"))
         out.append((ev, p))
     return out
+
+
+def split_loop(ev):
+    """(prefix, body, suffix) of a writer event list; body is None when the path contains no loop"""
+    if ("loop", "begin") not in ev:
+        return [e for e in ev if e[0] != "loop"], None, []
+    i = ev.index(("loop", "begin"))
+    j = len(ev) - 1 - ev[::-1].index(("loop", "end")) if ("loop", "end") in ev else len(ev)
+    return ev[:i], [e for e in ev[i + 1:j] if e[0] != "loop"], [e for e in ev[j + 1:] if e[0] != "loop"]
 
 
 def reader_paths(body, crate, inline=()):
@@ -220,6 +239,8 @@ def _abstract_writer(ev, self_is_bytes=False):
     out = []
     payload_src = None
     for i, e in enumerate(ev):
+        if e[0] == "loop":
+            continue
         if e[0] == "w":
             kind, term = e[1], e[2]
             c = _const(term)
@@ -249,8 +270,9 @@ def _abstract_writer(ev, self_is_bytes=False):
 
 def _payload_name(term):
     s = show(term)
-    if "as_bytes" in s:
-        return "utf8"
+    for x in mir.walk_expr(term):
+        if x[0] == "call" and x[1] in ("String::as_bytes", "str::as_bytes"):
+            return "utf8"
     t = strip_refs(term)
     if t[0] == "arg" and t[1] == 1:
         return "self"
@@ -267,6 +289,8 @@ def _plain_self(term):
     t = strip_refs(term)
     if t[0] == "arg" and t[1] == 1:
         return "self"
+    if t[0] == "cast" and t[1] == "IntToInt" and t[2] == "bool" and strip_refs(t[4])[0] == "arg":
+        return "bool01"
     if t[0] == "index" and "encode_utf16" in show(t):
         return "utf16_unit"
     return "unlabelled:" + show(term)[:50]
@@ -275,6 +299,28 @@ def _plain_self(term):
 def _norm_sub(ty):
     ty = ty.replace("&", "").replace("'static ", "").strip()
     return "String" if ty == "str" else ty
+
+
+PRIM_SUBS = set(INTS)
+
+
+def flatten(items):
+    """expand nested codecs of primitive / string types into the primitives they write (`Sub(u8)` == `Prim(U8)`)"""
+    out = []
+    for x in items:
+        if x[0] == "sub" and x[1] in PRIM_SUBS:
+            out.append(("w", x[1], ("label", x[2] or "self")))
+        elif x[0] == "sub" and x[1] in ("String", "str") and x[2] is None:
+            out.extend([("w", "var_i32", ("len", "utf8")), ("w", "bytes", ("payload", "utf8"))])
+        else:
+            out.append(x)
+    return out
+
+
+EQUIVALENT_GRAMMARS = {
+    # bool: two constant paths, or one path writing the 0/1 image of the value
+    "bool": [[[("w", "u8", ("const", 1))], [("w", "u8", ("const", 0))]], [[("w", "u8", ("label", "bool01"))]]],
+}
 
 
 def writers_conform(an, rep, features="default"):
@@ -303,12 +349,14 @@ def writers_conform(an, rep, features="default"):
             if p.outcome[0] != "return":
                 continue
             a = _abstract_writer(ev)
-            a = [(x[0], _norm_sub(x[1]), x[2]) if x[0] == "sub" else x for x in a]
+            a = flatten([(x[0], _norm_sub(x[1]), x[2]) if x[0] == "sub" else x for x in a])
             if a not in got:
                 got.append(a)
-        want = [[(x[0], x[1], x[2]) for x in alt] for alt in FORMAT[s]]
-        R.check(sorted(map(repr, got)) == sorted(map(repr, want)), key, "grammar", "writer emits %s; the format prescribes %s" %
-                (got, want), mir.loc(b, 0), sample={"type": s, "grammar": repr(want)})
+        wants = [FORMAT[s]] + EQUIVALENT_GRAMMARS.get(s, [])
+        wants = [[flatten([(x[0], x[1], x[2]) for x in alt]) for alt in w] for w in wants]
+        okk = any(sorted(map(repr, got)) == sorted(map(repr, w)) for w in wants)
+        R.check(okk, key, "grammar", "writer emits %s; the format prescribes %s" %
+                (got, wants[0]), mir.loc(b, 0), sample={"type": s, "grammar": repr(wants[0])})
     R.floor("leaf / composite writers checked", n, {"default": 48, "none": 34, "bigdecimal": 36, "chrono_bigdecimal": 47, "uuid": 35}.get(features, 25))
     return R
 
@@ -374,13 +422,22 @@ def pairs_unify(an, rep, features="default"):
     return R
 
 
+def _flat_kind(t):
+    t = _norm_sub(t)
+    if t in PRIM_SUBS:
+        return [t]
+    if t == "String":
+        return ["var_i32", "bytes"]
+    return ["sub:" + t]
+
+
 def _writer_kinds(ev):
     out = []
     for e in ev:
         if e[0] == "w":
             out.append(e[1])
         elif e[0] == "sub":
-            out.append("sub:" + _norm_sub(e[1]))
+            out.extend(_flat_kind(e[1]))
         elif e[0] == "seqw":
             out.append("seq")
     return out
@@ -395,7 +452,7 @@ def _reader_kinds(ev):
         elif e[0] == "rb":
             out.append("bytes")
         elif e[0] == "sub":
-            out.append("sub:" + _norm_sub(e[1]))
+            out.extend(_flat_kind(e[1]))
         elif e[0] == "seqr":
             out.append("seq")
         elif e[0] == "adt":
@@ -404,7 +461,7 @@ def _reader_kinds(ev):
                 out.append("evolved-header")
         elif e[0] == "field":
             t = e[3][0].get("s", "?") if e[3] else "?"
-            out.append("sub:" + _norm_sub(mir.short(t)))
+            out.extend(_flat_kind(mir.short(t)))
     return out
 
 
@@ -420,10 +477,39 @@ def _binder_of(term, site):
     return False
 
 
+UNK = ("unk", "delegated")
+
+
+def _flat_w(wev):
+    out = []
+    for e in wev:
+        if e[0] == "sub" and _norm_sub(e[1]) in PRIM_SUBS:
+            out.append(("w", _norm_sub(e[1]), e[2]))
+        elif e[0] == "sub" and _norm_sub(e[1]) == "String":
+            out.extend([("w", "var_i32", UNK), ("w", "bytes", UNK)])
+        elif e[0] in ("w", "sub", "seqw"):
+            out.append(e)
+    return out
+
+
+def _flat_r(rev):
+    out = []
+    for e in rev:
+        if e[0] == "sub" and _norm_sub(e[1]) in PRIM_SUBS:
+            out.append(("r", _norm_sub(e[1]), e[2]))
+        elif e[0] == "sub" and _norm_sub(e[1]) == "String":
+            out.extend([("r", "var_i32", e[2]), ("rb", UNK, e[2])])
+        elif e[0] == "field" and e[3] and _norm_sub(mir.short(e[3][0].get("s", "?"))) in PRIM_SUBS:
+            out.append(("r", _norm_sub(mir.short(e[3][0].get("s", "?"))), e[2]))
+        elif e[0] in ("r", "rb", "sub", "seqr", "field"):
+            out.append(e)
+    return out
+
+
 def _consistent(wev, rev, rp):
     """tag constants satisfy the reader's tests; length binders govern payloads"""
-    reads = [e for e in rev if e[0] in ("r", "rb", "sub", "seqr", "field")]
-    writes = [e for e in wev if e[0] in ("w", "sub", "seqw")]
+    reads = _flat_r(rev)
+    writes = _flat_w(wev)
     k = 0
     for w in writes:
         r = reads[k] if k < len(reads) else None
@@ -458,9 +544,9 @@ def _consistent(wev, rev, rp):
             prev = reads[k - 2] if k >= 2 else None
             prevw = writes[writes.index(w) - 1] if writes.index(w) > 0 else None
             if prevw is not None and prevw[0] == "w" and prev is not None and prev[0] == "r":
-                lenw = any(x[0] == "len" or (x[0] == "call" and (x[1] in guards.PURE_LEN or x[1].endswith("::len")))
-                           for x in mir.walk_expr(prevw[2]))
-                if lenw and not _binder_of(r[1], prev[2]):
+                lenw = prevw[2] is not UNK and any(x[0] == "len" or (x[0] == "call" and (x[1] in guards.PURE_LEN or x[1].endswith("::len")))
+                                                   for x in mir.walk_expr(prevw[2]))
+                if lenw and r[1] is not UNK and not _binder_of(r[1], prev[2]):
                     return False, "the length read before the payload does not govern read_bytes (%s)" % show(r[1])
     if k != len(reads):
         return False, "reader path reads more than the writer wrote"
@@ -470,9 +556,11 @@ def _consistent(wev, rev, rp):
 def _check_labels(R, s, wev, rev, rp, rb):
     """G6 reader side: the binder of slot k reaches the constructor argument labelled like writer slot k"""
     slots = []
-    reads = [e for e in rev if e[0] in ("r", "rb", "sub", "field")]
-    writes = [e for e in wev if e[0] in ("w", "sub")]
+    reads = [e for e in _flat_r(rev) if e[0] in ("r", "rb", "sub", "field")]
+    writes = [e for e in _flat_w(wev) if e[0] in ("w", "sub")]
     for w, r in zip(writes, reads):
+        if w[2] is UNK:
+            continue
         lab = _label(w[2]) if w[0] in ("w", "sub") and w[2] is not None else None
         if w[0] == "w" and w[1] == "bytes" and lab is None:
             continue
@@ -533,12 +621,14 @@ def sequences(an, rep, features="default"):
                 R.check("$self" in src and "iter" in src, "<%s>" % s, "serialize_iterator source",
                         "serialize_iterator is not fed from self.iter(): %s" % src, mir.loc(wb, 0),
                         sample={"type": s, "seq": "serialize_iterator(self.iter())"})
-            elif p.outcome[0] == "loopback":
+            elif split_loop(ev)[1] is not None:
                 forms.add("seq")
-                a = _abstract_writer(ev)
-                okk = len(a) == 2 and a[0] == ("w", "var_i32", ("len", "self")) and a[1][0] == "sub"
+                pre, body, suf = split_loop(ev)
+                a, bdy = _abstract_writer(pre), _abstract_writer(body)
+                okk = a == [("w", "var_i32", ("len", "self"))] and len(bdy) == 1 and bdy[0][0] == "sub" and not suf
                 R.check(okk, "<%s>" % s, "hand-written loop", "hand-written sequence must be VarI32(len(self)) then one nested "
-                        "write per element; found %s" % a, mir.loc(wb, 0), sample={"type": s, "seq": "VarI32(len) (Sub T)*"})
+                        "write per element; found %s (%s)* %s" % (a, bdy, _abstract_writer(suf)), mir.loc(wb, 0),
+                        sample={"type": s, "seq": "VarI32(len) (Sub T)*"})
             elif p.outcome[0] == "return" and kinds and kinds[0] == "var_i32":
                 pass    # loop exit path of the hand-written form
             elif kinds:
@@ -644,8 +734,18 @@ def compressed_frame(an, rep):
         if okk:
             s0, s1, s2 = show(ws[0][2]), show(ws[1][2]), show(ws[2][2])
             buf = rte[0][5][1] if rte else None
-            okk = "len" in s0 and "$bytes" in s0 and "try_into" in s0 and "len" in s1 and "try_into" in s1 and "$bytes" not in s1 \
-                and "Vec<T>::new" in s1 and "Vec<T>::new" in s2
+            def checked_len(t):
+                t = strip_refs(t)
+                if t[0] != "ok":
+                    return False
+                c = strip_refs(t[1])
+                return c[0] == "call" and (c[1].endswith(("::try_into", "::try_from"))) and \
+                    any(x[0] == "len" or (x[0] == "call" and (x[1] in guards.PURE_LEN or x[1].endswith("::len"))) for x in mir.walk_expr(c))
+            buf_site = strip_refs(rte[0][5][1])[4] if rte and strip_refs(rte[0][5][1])[0] == "call" else None
+            in_buf = lambda t: any(x[0] == "call" and x[4] == buf_site for x in mir.walk_expr(t))
+            in_arg = lambda t: any(x[0] == "arg" and x[1] == 2 for x in mir.walk_expr(t))
+            okk = checked_len(ws[0][2]) and in_arg(ws[0][2]) and not in_buf(ws[0][2]) and checked_len(ws[1][2]) and \
+                in_buf(ws[1][2]) and not in_arg(ws[1][2]) and in_buf(ws[2][2])
         R.check(okk, w.key, "frame", "frame must be VarU32(len(input)), VarU32(len(deflated)), deflated bytes with checked "
                 "conversions: %s" % [(e[1], show(e[2])[:60]) for e in ws], mir.loc(w, 0),
                 sample={"frame": "VarU32(len input) VarU32(len deflated) bytes"})
